@@ -1,10 +1,14 @@
 use crate::report::Report;
 use crate::Ctx;
 
+pub mod c13;
+pub mod c14;
 pub mod c20;
 
 pub fn run(prop: &str, ctx: &mut Ctx) -> Option<Report> {
     match prop {
+        "C13" => Some(c13::run(ctx)),
+        "C14" => Some(c14::run(ctx)),
         "C20" => Some(c20::run(ctx)),
         _ => None,
     }
